@@ -634,13 +634,34 @@ def r_val_sib(E):
         # construction: guarded only by check_input_validity and not for calculated attributes
         if len(res.samples) < 4:
             res.samples.append({"path": path, "function": fn.name, "validator": v, "call": norm(c)[:90]})
-    # in parse_changes_list the type check must not be skipped for any non-None value
+    # in parse_changes_list the type check must not be skipped for any non-None value: inside the loop over the
+    # changes, every path that does not raise either calls the validator or is taken only when the new value is None
     res.instances += 1
-    iff = next((s for s in ast.walk(pc) if isinstance(s, ast.If) and norm(s.test) == "new_value is None"), None)
-    if iff is None or not any("check_input_value_type_positivity_and_unit" in norm(x) for x in iff.orelse):
+    from ..paths import enumerate_paths, path_formula, implies, parse
+    V = "check_input_value_type_positivity_and_unit"
+    is_val = lambda n: isinstance(n, ast.Call) and isinstance(n.func, ast.Attribute) and n.func.attr == V
+    loop = next((n for n in ast.walk(pc) if isinstance(n, ast.For) and any(is_val(x) for x in ast.walk(n))), None)
+    if loop is None:
         res.findings.append(Finding("R-VAL-SIB", "update path check guard",
                                     "parse_changes_list must validate every new value that is not None", rel2, pc.lineno,
                                     pc.name))
+    else:
+        newv = None
+        for c in ast.walk(loop):
+            if is_val(c) and len(c.args) >= 2:
+                newv = norm(c.args[1])
+        body = ast.FunctionDef(name=pc.name, args=pc.args, body=loop.body, decorator_list=[], returns=None)
+        none_test = parse(f"{newv} is None") if newv else None
+        for path in enumerate_paths(body, is_val):
+            if path.end == "raise" or any(is_val(c) for c in path.calls()):
+                continue
+            if none_test is None or not implies(path_formula(path.conds, pc), none_test):
+                cond = " and ".join(("" if pol else "not ") + "(" + norm(t)[:60] + ")" for t, pol in path.conds)
+                res.findings.append(Finding(
+                    "R-VAL-SIB", "update path check guard",
+                    f"parse_changes_list must validate every new value that is not None, but when `{cond[:140]}` the "
+                    f"value is installed without the type / unit / class check", rel2, loop.lineno, pc.name))
+                break
     res.floor = 5
     return res
 
